@@ -861,6 +861,26 @@ pub fn c10(tier: Tier) -> Vec<Case> {
         }
     }
     super::e1::wide_choice_family(&mut b, "errors/wide-choice");
+    // user-defined Whitespace with a multi-token alternative (a comment that may stay unterminated): the failures made
+    // inside the Whitespace rule count like any other, however often the same run is skipped (also from lookaheads)
+    {
+        let inputs = InputSpec::Strings { alphabet: vec!['b', 'c', '_', '#', '\n'], max_len: if tier == Tier::Quick { 5 } else { 6 } };
+        let ws = Rule::normal("Whitespace", vec![Directive::NoSkipWs], star(choice(vec![lit("_"), rref("Comment")])));
+        let comment = Rule::normal("Comment", vec![Directive::NoSkipWs], seq(vec![lit("#"), star(seq(vec![not(lit("\n")), rref("char")])), lit("\n")]));
+        let x = Rule::normal("X", vec![Directive::Position], seq(vec![lit("b"), opt(lit("c"))]));
+        for body in [
+            seq(vec![star(seq(vec![not(lit("c")), field("f", "X"), lit("c")])), Expr::Eoi]),
+            seq(vec![not(lit("c")), field("f", "X"), opt(lit("b")), Expr::Eoi]),
+            seq(vec![and(rref("X")), choice(vec![seq(vec![field("f", "X"), lit("b")]), field("f", "X")]), lit("c")]),
+            seq(vec![star(choice(vec![lit("b"), lit("c")])), Expr::Eoi]),
+            choice(vec![seq(vec![lit("b"), lit("b")]), seq(vec![not(lit("b")), lit("c"), field("f", "X")]), seq(vec![lit("b"), lit("c"), lit("c")])]),
+        ] {
+            let g = root_grammar(vec![Directive::Export, Directive::Position], body, &[x.clone(), ws.clone(), comment.clone()]);
+            if wf::well_formed(&g) {
+                b.add("errors/user-whitespace", g, inputs.clone());
+            }
+        }
+    }
     // (2) memoized grammars: the offset must be real
     let minputs = memo_inputs(tier);
     for (g, names) in memo_bases(Tier::Quick) {
